@@ -598,6 +598,9 @@ class JSONAttrList(JSONList):
     """A :class:`JSONList` whose dict-like children will be of type :class:`JSONAttrDict`."""
 
     _backend = __name__ + ".attr"  # type: ignore
+    # Dict-like children are attribute-access dicts, so keys with dots must be
+    # rejected for data added through the list as well.
+    _validators = (no_dot_in_key,)
 
 
 class BufferedJSONAttrDict(BufferedJSONDict, AttrDict):
@@ -614,6 +617,9 @@ class BufferedJSONAttrList(BufferedJSONList):
     """A :class:`BufferedJSONList` whose dict-like children will be of type :class:`BufferedJSONAttrDict`."""  # noqa: E501
 
     _backend = __name__ + ".buffered_attr"  # type: ignore
+    # Dict-like children are attribute-access dicts, so keys with dots must be
+    # rejected for data added through the list as well.
+    _validators = (no_dot_in_key,)
 
 
 class MemoryBufferedJSONAttrDict(MemoryBufferedJSONDict, AttrDict):
@@ -630,3 +636,6 @@ class MemoryBufferedJSONAttrList(MemoryBufferedJSONList):
     """A :class:`MemoryBufferedJSONList` whose dict-like children will be of type :class:`MemoryBufferedJSONAttrDict`."""  # noqa: E501
 
     _backend = __name__ + ".memory_buffered_attr"  # type: ignore
+    # Dict-like children are attribute-access dicts, so keys with dots must be
+    # rejected for data added through the list as well.
+    _validators = (no_dot_in_key,)
